@@ -25,6 +25,39 @@ MODES = ["static", "static", "static-libc", "pie", "pie", "dyn", "shared"]
 R_OPTS = [[], [], ["-S"], ["--no-gc-sections"], ["--no-string-merge"], ["--threads=1"]]
 
 
+# C27 draws commons rarely: every common that passes through wild -r is in a known finding's domain.
+DEF_KINDS = [k for k in progen.DEF_KINDS if k != "common"] * 3 + ["common"]
+
+
+def _partition(case, prog):
+    """(gidx per object incl. driver, groups dict)."""
+    n = prog.ntu
+    gidx = [case["groups"][i] for i in range(n)] + [case["groups"][6]]
+    groups = {}
+    for i, g in enumerate(gidx):
+        if g >= 0:
+            groups.setdefault(g, []).append(i)
+    if not groups:
+        gidx[0] = gidx[1] = 0
+        groups = {0: [0, 1]}
+    return gidx, groups
+
+
+def common_through_r(case):
+    """Known finding `r-drops-common-symbols`: a COMMON symbol referenced from an object that goes
+    through `wild -r` (the owning TU's init function always references it)."""
+    mode = MODES[case["mode"] % len(MODES)]
+    prog = progen.realise(case["prog"], [mode])
+    gidx, _ = _partition(case, prog)
+    for dd in prog.defs:
+        if dd["kind"] == "common" and gidx[dd["tu"]] >= 0:
+            return True
+    for st_ in prog.sites:
+        if prog.defs[st_["tgt"]]["kind"] == "common" and gidx[st_["tu"]] >= 0:
+            return True
+    return False
+
+
 class C27(Check):
     prop = "C27"
     level = "exploration"
@@ -41,11 +74,14 @@ class C27(Check):
     def strategy(self, tier):
         return st.fixed_dictionaries({
             "mode": st.integers(0, len(MODES) - 1),
-            "prog": progen.program_strategy(max_defs=12, max_sites=14, ntu=(3, 5)),
+            "prog": progen.program_strategy(max_defs=12, max_sites=14, ntu=(3, 5), def_kinds=DEF_KINDS),
             "groups": st.lists(st.integers(-1, 2), min_size=7, max_size=7),   # per object (t0..t5, drv)
             "nest": st.booleans(),
             "ropt": st.integers(0, len(R_OPTS) - 1),
         })
+
+    def excluded_by_construction(self, case):
+        return "r-drops-common-symbols" if common_through_r(case) else None
 
     @progen.shrink_budget(45)
     def run_case(self, case, ctx):
@@ -70,14 +106,9 @@ class C27(Check):
         if (out, rc) != (expected, exp_rc):
             return {"nontrivial": False, "classes": ["wild_direct_differs_from_reference"]}
         # partition
-        gidx = [case["groups"][i] for i in range(prog.ntu)] + [case["groups"][6]]
-        groups = {}
-        for o, g in zip(objs, gidx):
-            if g >= 0:
-                groups.setdefault(g, []).append(o)
-        if not groups:
-            groups = {0: [objs[0], objs[1]]}
-            gidx[0] = gidx[1] = 0
+        gidx, groups_i = _partition(case, prog)
+        groups = {g: [objs[i] for i in m] for g, m in groups_i.items()}
+        known_common = common_through_r(case)
         ropt = R_OPTS[case["ropt"] % len(R_OPTS)]
         nest = case["nest"] and len(groups) >= 2
 
@@ -121,6 +152,10 @@ class C27(Check):
             if lfail is None:
                 s2, out2, rc2 = progen.behaviour("wild", mode, lfinal, ctx, "lpart", libs=em["libs"])
                 step = "r-step" if (s2 == "ok" and (out2, rc2) == (expected, exp_rc)) else "final-step"
+            if known_common and step == "r-step":
+                raise Violation("r-drops-common-symbols",
+                                f"wild -r drops COMMON symbols (relocations against them get symbol index 0); final link "
+                                f"{'fails' if s != 'ok' else 'misbehaves'}: {out[-300:]}", {"groups": groups, "mode": mode})
             if s != "ok":
                 raise Violation(f"partial-link-then-link-fails:{step}",
                                 f"direct wild link works, but linking wild's -r outputs fails ({mode}, groups {groups}, nest {nest}): {out[-400:]}",
